@@ -117,6 +117,9 @@ package cache
 //@   ensures [lock-released] c != nil ==> !held(c.mu)
 //@   ensures [inv] c != nil ==> cacheInv(c)
 //@   ensures [stored] c != nil ==> (key in c.entries) && c.entries[key].value == val && c.entries[key].used >= old(clock())
+//@   -- an insertion beyond the limit is followed by pruning: every such Set starts the count prune (what the prune then does is its
+//@   -- own contract; that it is started at all does not depend on earlier prunes - the per-call reduct of "never stays above the limit")
+//@   ensures [prune-started]{C20,C08} c != nil && c.maxCount > 0 && len(c.entries) > c.maxCount ==> spawned(Cache.pruneCount) >= 1
 //@   ensures [others-untouched] c != nil ==> forall k2: k :: k2 != key ==> ((k2 in c.entries) <==> old(k2 in c.entries)) && c.entries[k2] == old(c.entries[k2]) && (old(k2 in c.entries) ==> c.entries[k2].value == old(c.entries[k2].value))
 
 //@ pred agedOut(c) := forall k2: k :: old(k2 in c.entries) && !(k2 in c.entries) ==> old(c.entries[k2].used) + c.minAge < clock()
